@@ -57,7 +57,12 @@ MA3 = (f"""(define (domain ma3)
 (:goal (and (clean i1))))
 """)
 
-ALL = {"ma1": MA1, "ma2": MA2, "ma3": MA3}
+# the numeric domain again, declaring its functions under :action-costs only (no :numeric-fluents / :fluents flag)
+MA2B = (MA2[0].replace("(define (domain ma2)", "(define (domain ma2b)").replace(REQ, "(:requirements :typing :negative-preconditions :action-costs)"),
+        MA2[1].replace("(:domain ma2)", "(:domain ma2b)").replace("(problem ma2p)", "(problem ma2bp)"))
+assert MA2B[0] != MA2[0] and ":numeric-fluents" not in MA2B[0]
+
+ALL = {"ma1": MA1, "ma2": MA2, "ma3": MA3, "ma2b": MA2B}
 
 
 def texts(name, n_agents):
